@@ -973,7 +973,7 @@ fn check_attachments(
         let dup_shape = copies.get(&(e.ent, e.trace_id)).copied().unwrap_or(0) > 1;
         // expected attachments: (att, must)
         let mut want_props_prefix: Vec<u32> = vec![];
-        let mut atts: Vec<(&Att, bool)> = vec![];
+        let mut atts: Vec<(&Att, bool, Option<SendRef>)> = vec![];
         let root_commit = commit_time[e.trace];
         let lost_start = start_lost[e.trace];
         match e.ent {
@@ -990,7 +990,7 @@ fn check_attachments(
                 for a in &s.atts {
                     let att_sub = a.submit_send.map(|x| send_time(prog, x));
                     let must = a_ok && !lost_start && att_sub.map(|x| !dropped.contains(&x)).unwrap_or(false);
-                    atts.push((a, must));
+                    atts.push((a, must, a.submit_send));
                 }
                 for line in &m.lines {
                     match &line.kind {
@@ -1003,7 +1003,7 @@ fn check_attachments(
                             };
                             for a in &line.root_atts {
                                 let must = a_ok && b_ok && !lost_start && line_sub.map(|x| !dropped.contains(&x)).unwrap_or(false);
-                                atts.push((a, must));
+                                atts.push((a, must, line.submit_send));
                             }
                         }
                         LineKind::Collector(_) => {
@@ -1016,7 +1016,7 @@ fn check_attachments(
                                     };
                                     for a in &line.root_atts {
                                         let must = a_ok && b_ok && !lost_start && ps.map(|x| !dropped.contains(&x)).unwrap_or(false);
-                                        atts.push((a, must));
+                                        atts.push((a, must, *sref));
                                     }
                                 }
                             }
@@ -1030,7 +1030,7 @@ fn check_attachments(
                 want_props_prefix = ml.props.clone();
                 // attachments recorded in the same span set as their target: always together
                 for a in &ml.atts {
-                    atts.push((a, true));
+                    atts.push((a, true, None));
                 }
             }
         }
@@ -1040,12 +1040,7 @@ fn check_attachments(
         // and finish, so such an attachment is not demanded (at most once still is).
         if !cfg.cancelable {
             if let Some(sc) = e.submit.and_then(|s| consumed.get(&s).copied()) {
-                for (a, must) in atts.iter_mut() {
-                    let carrier = match (a.route, a.line) {
-                        (Route::Handle, _) => a.submit_send,
-                        (_, Some(li)) => m.lines[li].submit_send,
-                        _ => None,
-                    };
+                for (_a, must, carrier) in atts.iter_mut() {
                     if let Some(ac) = carrier.map(|x| send_time(prog, x)).and_then(|s| consumed.get(&s).copied()) {
                         if ac > sc {
                             *must = false;
@@ -1055,7 +1050,7 @@ fn check_attachments(
             }
         }
         cn.attach_checks += 1;
-        atts.sort_by_key(|(a, _)| a.op);
+        atts.sort_by_key(|(a, _, _)| a.op);
         // properties
         let got: Vec<(String, String)> = r.properties.iter().map(|(k, v)| (k.to_string(), v.to_string())).collect();
         // 1. nothing that belongs elsewhere, nothing unknown
@@ -1087,12 +1082,7 @@ fn check_attachments(
         // recorded finding [D11]: the command carrying the attachment was consumed by a collector
         // cycle before the StartCollect of the trace (sent earlier through another queue)
         let start_cycle = m.traces[e.trace].start_send.map(|x| send_time(prog, x)).and_then(|s| consumed.get(&s).copied());
-        let missing_sig = |a: &Att, base: &str| -> String {
-            let carrier = match (a.route, a.line) {
-                (Route::Handle, _) => a.submit_send,
-                (_, Some(li)) => m.lines[li].submit_send,
-                _ => None,
-            };
+        let missing_sig = |carrier: Option<SendRef>, base: &str| -> String {
             let cc = carrier.map(|x| send_time(prog, x)).and_then(|s| consumed.get(&s).copied());
             match (cc, start_cycle) {
                 (Some(c), Some(st)) if st > c => "submit-consumed-before-start-cross-queue".to_string(),
@@ -1112,7 +1102,7 @@ fn check_attachments(
             }
         };
         let mut route_last: HashMap<(Route, usize), (usize, Option<usize>)> = HashMap::new();
-        for (a, must) in &atts {
+        for (a, must, carrier) in &atts {
             if let AttKind::Props { .. } = a.kind {
                 let mut positions = vec![];
                 for k in att_keys(a) {
@@ -1122,7 +1112,7 @@ fn check_attachments(
                         v(out, Cat::AttachDup, &known("property-duplicated"), format!("{:?}: property {:?} appears {} times", rname, ks, ps.len()));
                     }
                     if ps.is_empty() && *must {
-                        v(out, Cat::AttachMissing, &missing_sig(a, "property-missing"), format!("{:?}: property {:?} (attached by flat op {}, route {:?}) is missing", rname, ks, a.op, a.route));
+                        v(out, Cat::AttachMissing, &missing_sig(*carrier, "property-missing"), format!("{:?}: property {:?} (attached by flat op {}, route {:?}) is missing", rname, ks, a.op, a.route));
                     }
                     if let Some(p) = ps.first() {
                         if rest[*p].1 != val(k) {
@@ -1162,7 +1152,7 @@ fn check_attachments(
             ev_pos.entry(n).or_default().push(i);
         }
         let mut ev_last: HashMap<(Route, usize), (usize, Option<usize>)> = HashMap::new();
-        for (a, must) in &atts {
+        for (a, must, carrier) in &atts {
             if let AttKind::Event { e: en, k0, np } = a.kind {
                 let n = ename(en);
                 let ps = ev_pos.get(&n).cloned().unwrap_or_default();
@@ -1170,7 +1160,7 @@ fn check_attachments(
                     v(out, Cat::AttachDup, &known("event-duplicated"), format!("{:?}: event {:?} appears {} times", rname, n, ps.len()));
                 }
                 if ps.is_empty() && *must {
-                    v(out, Cat::AttachMissing, &missing_sig(a, "event-missing"), format!("{:?}: event {:?} (added by flat op {}, route {:?}) is missing", rname, n, a.op, a.route));
+                    v(out, Cat::AttachMissing, &missing_sig(*carrier, "event-missing"), format!("{:?}: event {:?} (added by flat op {}, route {:?}) is missing", rname, n, a.op, a.route));
                 }
                 if let Some(p) = ps.first() {
                     let want: Vec<(String, String)> = (k0..k0 + np as u32).map(|k| (key(k), val(k))).collect();
